@@ -50,6 +50,8 @@ Oracle calibration
     NoSuchParameter / NoSuchCommand.
   * a writable parameter without write_ method has no driver function: 'reaches the driver' is then 'changes the
     cache'; on acceptance the new cache value is what is judged.
+  * class GI enumerates where along the class hierarchy a parameter, its dynamic limit (subclass, plain mixin, same class)
+    and its check hooks (ancestor, intermediate class, subclass) are defined; the limit and every hook must be enforced.
   * generated check hooks return None (a hook returning True is frappy's documented 'stop checking' and is not
     generated); a parameter never has both <p>_limits and <p>_min/_max; a class defining both a limit and a hook
     for the same parameter is not generated (frappy documents that the hook then replaces the automatic check).
